@@ -613,3 +613,32 @@ Proof.
   intros H. destruct (cancel_by_receipt_ok_cur cfg rn w u w1 H) as [id C]. exists id. split; [exact C|].
   exact (end_of_day_first_asks_for_pending cfg st w1 id C).
 Qed.
+
+(* ------------------------------------------------------------------ begin / read card: nothing but their own request *)
+
+Theorem begin_exact_vocabulary cfg st tok w :
+  sent_in (fun b => housekeeping cfg b \/ b = reservation_req cfg tok) w (snd (begin_transaction cfg st tok w)).
+Proof.
+  unfold begin_transaction. destruct (_ =? _); [apply sent_refl|]. destruct (assoc_tok tok (s_txs st)); [apply sent_refl|].
+  match goal with |- context [consume ?f cfg ?r w ?a ?h ?fin] =>
+    pose proof (housekeeping_exchange cfg (fun b => housekeeping cfg b \/ b = reservation_req cfg tok) h fin
+                  "zvt::sequences::Reservation" (reservation_req cfg tok) TIMEOUT w a (fun b H => or_introl H) (or_intror eq_refl)) as K;
+    change (consume f cfg r w a h fin) with (consume LOOPFUEL cfg (start_retry (seq_of "zvt::sequences::Reservation" (reservation_req cfg tok)) TIMEOUT) w a h fin);
+    destruct (consume LOOPFUEL cfg (start_retry (seq_of "zvt::sequences::Reservation" (reservation_req cfg tok)) TIMEOUT) w a h fin) as [[rn|e] w1] end;
+    exact K.
+Qed.
+
+(* a begin the token map refuses (map full, token in use) writes nothing at all *)
+Theorem refused_begin_is_silent cfg st tok w :
+  N.of_nat (length (s_txs st)) = s_max st \/ assoc_tok tok (s_txs st) <> None ->
+  snd (begin_transaction cfg st tok w) = w.
+Proof.
+  intros H. unfold begin_transaction. destruct (N.of_nat (length (s_txs st)) =? s_max st) eqn:E; [reflexivity|].
+  destruct H as [H|H]; [lia|]. destruct (assoc_tok tok (s_txs st)); [reflexivity|contradiction].
+Qed.
+
+Theorem read_card_exact_vocabulary cfg w :
+  sent_in (fun b => housekeeping cfg b \/ b = read_card_req cfg) w (snd (read_card cfg w)).
+Proof.
+  unfold read_card. apply (housekeeping_exchange cfg (fun b => housekeeping cfg b \/ b = read_card_req cfg)); [intros b H; left; exact H|right; reflexivity].
+Qed.
